@@ -150,7 +150,11 @@ CHECKS = {
                 "The columns every function of the lexer reads are regenerated from the source on every run (T6) and proved equal to the reviewed table "
                 "of the format description's columns (104 fields of 17 record types). The record loop of the reader model on a coordinate record is "
                 "proved to be a first-match insert-or-update at the three levels, and any run of such records is proved to build exactly the nested "
-                "first-appearance partition of the specification (reader model = grouping specification, for every record sequence).",
+                "first-appearance partition of the specification (reader model = grouping specification, for every record sequence). The loop is "
+                "further proved to simulate the walk of the specification on coordinate and TER records (Proofs/C01sim.v): the same wrap offsets, "
+                "generated chain names, atom identities, atom fields and keys, so that from the start of a file the model being built equals the "
+                "partition of the walk's keyed atoms for every run of well-formed records; a decimal numeral in a field is read as the value the "
+                "specification gives its text.",
         "design_ref": "DESIGN.md section 6 C01",
         "note": "Partial: the refinement read_pdb (render recs) = denote recs is checked by correspondence, not proved; DBREF/SEQADV/MODRES/SSBOND are "
                 "covered by the reader-model correspondence only; SEQRES validation is not modelled. Trusted: Coq kernel, T2 table translators, the "
